@@ -9,12 +9,19 @@ d = "/verif/seeded/" + sid
 st = subprocess.run(["git", "-C", "/repo", "status", "--short", "--untracked-files=no"], stdout=subprocess.PIPE, text=True).stdout.strip()
 if st:
     sys.exit("/repo has local modifications, refusing: " + st)
+# the evidence file of the property must keep describing the UNCHANGED tree: save and restore it
+import shutil
+evf = "/verif/evidence/%s.json" % prop
+if os.path.exists(evf):
+    shutil.copy(evf, evf + ".keep")
 subprocess.run(["git", "-C", "/repo", "apply", d + "/patch.diff"], check=True)
 t0 = time.time()
 try:
     p = subprocess.run(["python3-vt", "/verif/run.py", prop] + extra, cwd="/verif", stdout=subprocess.PIPE, stderr=subprocess.STDOUT, text=True)
 finally:
     subprocess.run(["git", "-C", "/repo", "checkout", "--", "."], check=True)
+    if os.path.exists(evf + ".keep"):
+        shutil.move(evf + ".keep", evf)
 out = p.stdout
 lines = [l for l in out.splitlines() if l.startswith("VIOLATION") or l.startswith("INCONCLUSIVE") or "] obligations=" in l or "counterexample" in l]
 print("\n".join(lines[-12:]))
